@@ -400,7 +400,7 @@ def run_sched(st, case):
         del payload
         legacy = pipe in ("CL", "DL")
         ref = os.path.join(d, "ref.lz4")
-        if not cli(res, ctx["mt"], ["-f", "-q", "-T1"] + copts + (["-l"] if legacy else []) + [src, ref], "MT compression -T1", detail):
+        if not cli(res, ctx["mt"], ["-f", "-q", "-T1"] + (["-l"] if legacy else []) + [src, ref], "MT compression -T1", detail):
             return res
         if pipe in ("CL", "CF"):
             args = ["-f", "-q", "-T%d" % N] + (["-l"] if legacy else []) + [src, os.path.join(d, "o")]
